@@ -40,7 +40,7 @@ def Value.isNull : Value → Bool
   | _ => false
 
 /-- bytes of a (rule-text) string: Go `string(runes)` is the UTF-8 encoding -/
-def bytesOf (s : String) : Bytes := s.toUTF8.toList
+def bytesOf (s : String) : Bytes := s.toUTF8.data.toList
 
 /-- sub-value relation (used by the frame theorem C13) -/
 inductive SubValue : Value → Value → Prop
